@@ -2,7 +2,7 @@
    names the fields / sites that make an obligation of State/GenObligations.v false.
    Compiled stand-alone by checks/c12.py; its output is parsed. *)
 From Coq Require Import List String.
-Require Import Naga.State.Tie Naga.Gen.BackendState Naga.Gen.MapWalks.
+Require Import Naga.State.Tie Naga.Gen.BackendState Naga.Gen.MapWalks Naga.Gen.CloneRegions.
 Definition report (tag : string) (xs : list string) := (tag, xs).
 Eval vm_compute in report "unreset:Backend" (unreset_fields backend_fields backend_acts backend_cfg backend_scratch).
 Eval vm_compute in report "unreset:ModuleBuilder" (unreset_fields modulebuilder_fields modulebuilder_acts modulebuilder_cfg modulebuilder_scratch).
@@ -12,3 +12,5 @@ Eval vm_compute in report "global" (unreviewed written_globals global_allow nil)
 Eval vm_compute in report "irwrite" (unreviewed irwrite_sites irwrite_allow nil).
 Eval vm_compute in report "mapwalk" (unreviewed (class_c_sites map_walk_sites) mapwalk_allow nil).
 Eval vm_compute in report "first_stmt" (compile_first_stmt :: nil).
+Eval vm_compute in report "cloneshare:msl" (clone_shared_written msl_clone_copied msl_clone_writes msl_clone_known).
+Eval vm_compute in report "cloneshare:ir" (clone_shared_written ir_clone_copied ir_clone_writes ir_clone_known).
